@@ -111,7 +111,8 @@ def run(check, mirror, tier):
     check.bounds += ["list built-ins: list of ANY length (the length is an unconstrained usize up to Vec's capacity limit), position/length arguments any "
                      "number (integers of any magnitude and non-integers); strings of any character count",
                      "duration literals: capture groups of 1, 10, 19 and 20 digits (values up to 10^20-1, beyond u64)",
-                     "for-ranges: start anywhere in isize, end within one step of start (loop bodies unrolled 3 times)"]
+                     "for-ranges: start anywhere in isize, end within one step of start (loop bodies unrolled 3 times)",
+                     "substring before / after: strings of 0..3 (thorough 4) symbolic Unicode scalar values, match strings of 0..2, each 1..4 UTF-8 bytes"]
     check.assumptions += ["FeelNumber by its floor/integrality contract (lib/numvals.py); list and string contents are irrelevant to the index arithmetic and left abstract",
                           "regex capture groups as in C14"]
     jobs = []
@@ -166,6 +167,32 @@ def run(check, mirror, tier):
         jobs.append(lambda c, crate=crate, tag=tag, MODELS=MODELS: decide(
             c, crate, "no_panic/substring/%s" % tag, setup_substring, no_post, lambda i, rb: replay_bif("substring", i, rb), rb, models=MODELS,
             describe=desc, prefer=lambda inp: inp["string_len"] <= 6, budget_s=600, min_paths=1, timeout_ms=20000, known_predicates=KNOWN_PRED))
+
+        # --- string built-ins that slice at byte offsets (strings as sequences of symbolic scalar values, lib/charseq.py) -----------------
+        import charseq as cs
+        NS = 3 if tier == "quick" else 4
+
+        def mk_strfn(fn, crate=crate, tag=tag, MODELS=MODELS):
+            def setup(ex, st):
+                s, n, cps = cs.fresh_string(ex, st, "string", NS)
+                m, nm, mcps = cs.fresh_string(ex, st, "match", 2)
+                sv = En("Value", z3.IntVal(U.idx("String")), {"String": (s,)})
+                mv = En("Value", z3.IntVal(U.idx("String")), {"String": (m,)})
+                return fn, [Ref(ex.new_cell(st, sv)), Ref(ex.new_cell(st, mv))], {"string_chars": n, "match_chars": nm, "_string": cps, "_match": mcps}
+
+            def desc_s(m, inputs):
+                d = {k: model_value(m, v) for k, v in inputs.items() if not k.startswith("_")}
+                d["string"] = [model_value(m, c.e) for c in inputs["_string"][:d["string_chars"]]]
+                d["match"] = [model_value(m, c.e) for c in inputs["_match"][:d["match_chars"]]]
+                return d
+
+            def pref(inputs):
+                return z3.And([z3.Or([c.e == r for r in cs.REPR]) for c in inputs["_string"] + inputs["_match"]])
+            jobs.append(lambda c: decide(c, crate, "no_panic/%s/%s" % (fn, tag), setup, no_post,
+                                         lambda i, rb: cs.replay_str(fn.replace("_", " "), i, rb), rb, models=cs.STR_MODELS + MODELS, describe=desc_s,
+                                         prefer=pref, budget_s=600, min_paths=2, timeout_ms=20000, known_predicates=KNOWN_PRED, unwind=16))
+        mk_strfn("substring_after")
+        mk_strfn("substring_before")
 
         # --- for-range near the ends of isize ---------------------------------------------------------------------------------------
         def setup_range(ex, st):
